@@ -20,7 +20,7 @@ BUDGET = {"quick": 6000, "thorough": 100000}
 MIN_NONTRIVIAL = {"quick": 800, "thorough": 8000}
 REQUIRED_FUNCTIONS = ["utils.py:to_DiGraph"]
 FUNCTIONS = REQUIRED_FUNCTIONS
-REQUIRED_TAGS = ["via:loads", "via:api", "regref:positional", "regref:keyword", "no-arglist", "multi-mode", "single-op", "repeated-mode", "regref:same-register-twice"]
+REQUIRED_TAGS = ["via:loads", "via:api", "regref:positional", "regref:keyword", "no-arglist", "multi-mode", "single-op", "repeated-mode", "regref:same-register-twice", "instance-after-template-graph"]
 ASSUMPTIONS = ["share relation: a common mode, or a mode of one operation that is a measured register used by the other (either direction, as wires)"]
 
 
@@ -39,6 +39,7 @@ def build_text(rng, g):
         tags_big = False
     lines = ["name " + G.ident(), "version 1.0", ""]
     tags = set()
+    wires = []
     if tags_big:
         tags.add("big")
     for _ in range(n):
@@ -76,7 +77,8 @@ def build_text(rng, g):
                     kws.append("%s=%s" % (G.ident(fresh=False), rng.choice(["1", "[1, 2]", "True"])))
             al = "(" + ", ".join(args + kws) + ")"
         lines.append("%s%s | [%s]" % (G.opname(), al, ", ".join(str(m) for m in ms)))
-    return "\n".join(lines) + "\n", tags
+        wires.append(set(ms) | {int(x) for x in __import__("re").findall(r"(?<![A-Za-z0-9_])q(\d+)(?![A-Za-z0-9_])", al)})
+    return "\n".join(lines) + "\n", tags, wires
 
 
 def op_wires(op, RRT):
@@ -87,7 +89,7 @@ def op_wires(op, RRT):
     return w
 
 
-def check_program(ctx, P, tags, via, witness):
+def check_program(ctx, P, tags, via, witness, wires=None):
     import numpy as np
     from blackbird.listener import RegRefTransform
     from blackbird.utils import to_DiGraph
@@ -95,7 +97,12 @@ def check_program(ctx, P, tags, via, witness):
     ops = P.operations
     n = len(ops)
     snapshot = [(o["op"], list(o["modes"]), "args" in o) for o in ops]
-    wires = [op_wires(o, RegRefTransform) for o in ops]
+    # the wires of each operation as written in the script (generator's knowledge); only corpus
+    # entries fall back to reading them off the loaded operations
+    if wires is None:
+        wires = [op_wires(o, RegRefTransform) for o in ops]
+    if len(wires) != n:
+        return ctx.violation("machinery:wires", "generator recorded %d operations, program has %d" % (len(wires), n), witness)
     tags = set(tags) | {via}
     if n == 1:
         tags.add("single-op")
@@ -205,15 +212,37 @@ def run(ctx):
     n = ctx.share(BUDGET[ctx.tier])
     for i in range(n):
         rng = ctx.rng(i)
-        text, tags = build_text(rng, g)
+        text, tags, wires = build_text(rng, g)
+        c = rng.random()
+        if c < 0.12:
+            # a template is converted first, then instantiated; the instance's graph must describe the instance
+            lines = text.rstrip("\n").split("\n")
+            k = rng.randrange(3, len(lines) + 1)
+            lines.insert(k, "Tgate({tp}, 0.5, k={tq}) | [%d]" % rng.choice(sorted(wires[0])))
+            wires.insert(k - 3, {int(lines[k].split("[")[1].split("]")[0])})
+            text = "\n".join(lines) + "\n"
+            T, exc = common.real_loads(text)
+            if exc is not None:
+                ctx.out_of_domain("script does not load (%s)" % type(exc).__name__)
+                continue
+            from blackbird.utils import to_DiGraph
+
+            try:
+                to_DiGraph(T)
+                inst = T(tp=rng.uniform(0.1, 2), tq=rng.uniform(0.1, 2))
+            except Exception as e:
+                ctx.violation("raises:" + common.exc_key(e), "graph conversion / instantiation of a template raised %s" % common.exc_text(e), {"text": text})
+                continue
+            check_program(ctx, inst, set(tags) | {"instance-after-template-graph"}, "via:loads", {"text": text, "via": "template graph, then instance"}, wires=wires)
+            continue
         P, exc = common.real_loads(text)
         if exc is not None:
             ctx.out_of_domain("script does not load (%s)" % type(exc).__name__)
             continue
-        if rng.random() < 0.3:
-            check_program(ctx, api_program(rng, P), tags, "via:api", {"text": text, "via": "api"})
+        if c < 0.4:
+            check_program(ctx, api_program(rng, P), tags, "via:api", {"text": text, "via": "api"}, wires=wires)
         else:
-            check_program(ctx, P, tags, "via:loads", {"text": text})
+            check_program(ctx, P, tags, "via:loads", {"text": text}, wires=wires)
 
 
 def replay(w):
